@@ -68,6 +68,15 @@ def build_doc(n, node_kinds, edges, order=None):
                         eff.append((i, j))
             defs["N%d" % i] = {"anyOf": branches}
             continue
+        if kind == "constrained":
+            # an object schema with enumerated values: a constrained newtype around an inner struct
+            props = {"leaf": {"type": "integer"}}
+            for e, (j, k) in enumerate(out):
+                props["p%d" % e] = edge_schema("req" if k == "opt" else k, j)   # all optional inside
+                if k in BY_VALUE or k == "opt":
+                    eff.append((i, j))
+            defs["N%d" % i] = {"type": "object", "properties": props, "enum": [{"leaf": 1}, {"leaf": 2}]}
+            continue
         if kind == "enum":
             branches = [{"type": "string", "enum": ["Unit"]}]
             for e, (j, k) in enumerate(out):
@@ -200,6 +209,11 @@ def enumerate_graphs(tier, seed):
                 flat.append(("f2", 2, ["flat", nk], [(0, 1, k1), (1, 0, k2)], None))
                 flat.append(("f2", 2, ["flat", nk], [(0, 1, k1), (0, 0, k2)], None))
                 flat.append(("f2", 2, [nk, "flat"], [(0, 1, k1), (1, 0, k2)], [1, 0]))
+    for k1 in EDGE_KINDS:
+        flat.append(("c1", 1, ["constrained"], [(0, 0, k1)], None))
+        for nk in NODE_KINDS:
+            flat.append(("c2", 2, ["constrained", nk], [(0, 1, k1), (1, 0, "req")], None))
+            flat.append(("c2", 2, [nk, "constrained"], [(0, 1, "req"), (1, 0, k1)], [1, 0]))
     for nk in NODE_KINDS:
         for k1 in ("array32", "array1"):
             flat.append(("x1", 1, [nk], [(0, 0, k1)], None))
